@@ -3,7 +3,7 @@
        expansion of character-level vectors give the expansion of the character-level result;
    (b) the ASSEMBLY of the stage statements: one paragraph from its five stages, and the two
        constructors from compute_initial_info and one paragraph. *)
-From BidiVerif Require Import Base ConstsGen TablesGen ModelText ModelResolve ModelLine Spec Obs Judge
+From BidiVerif Require Import Base ConstsGen TablesGen ModelText RefDs ModelResolve ModelLine Spec Obs Judge
      Stmts Stmts2 Stmts3.
 From BidiVerif.Proofs Require Import LIAssemble.
 
@@ -43,21 +43,21 @@ Example li_assemble_example :
   assign_levels_to_removed_chars 0 (expand lens oc)
       (expand lens [0; 0; 1; 2; 1; 0; 0; 2; 2; 2; 0; 0; 1; 1; 2; 0; 2]) =
     Ok (expand lens [0; 0; 1; 2; 2; 0; 0; 2; 2; 2; 0; 0; 1; 1; 2; 0; 2]) /\
-  bidi_info_new U32 hardcoded_ds cps None =
+  bidi_info_new U32 ucd16_ds cps None =
     Ok {| bi_classes := oc;
           bi_levels := [0; 0; 1; 2; 2; 0; 0; 2; 2; 2; 0; 0; 1; 1; 2; 1; 2];
           bi_paras := [{| p_start := 0; p_end := 6; p_level := 0 |};
                        {| p_start := 6; p_end := 17; p_level := 0 |}] |} /\
-  bidi_info_new U8 hardcoded_ds t None =
+  bidi_info_new U8 ucd16_ds t None =
     Ok {| bi_classes := expand lens oc;
           bi_levels := expand lens [0; 0; 1; 2; 2; 0; 0; 2; 2; 2; 0; 0; 1; 1; 2; 1; 2];
           bi_paras := map (upara lens) [{| p_start := 0; p_end := 6; p_level := 0 |};
                                         {| p_start := 6; p_end := 17; p_level := 0 |}] |} /\
-  para_bidi_info_new U32 hardcoded_ds cps (Some 1) =
+  para_bidi_info_new U32 ucd16_ds cps (Some 1) =
     Ok {| pb_classes := oc;
           pb_levels := [2; 2; 3; 4; 4; 1; 1; 2; 2; 2; 1; 2; 1; 1; 2; 1; 2];
           pb_level := 1; pb_pure := false |} /\
-  para_bidi_info_new U8 hardcoded_ds t (Some 1) =
+  para_bidi_info_new U8 ucd16_ds t (Some 1) =
     Ok {| pb_classes := expand lens oc;
           pb_levels := expand lens [2; 2; 3; 4; 4; 1; 1; 2; 2; 2; 1; 2; 1; 1; 2; 1; 2];
           pb_level := 1; pb_pure := false |}.
